@@ -4,6 +4,7 @@ pub mod hashes;
 pub mod bg4;
 pub mod xorb;
 pub mod shard;
+pub mod interp_search;
 
 pub fn run(suite: &str, ctx: &mut Ctx) -> bool {
     match suite {
@@ -11,6 +12,7 @@ pub fn run(suite: &str, ctx: &mut Ctx) -> bool {
         "hashes" => hashes::run(ctx),
         "bg4" => bg4::run(ctx),
         "shard" => shard::run(ctx),
+        "interp_search" => interp_search::run(ctx),
         "xorb" => xorb::run_roundtrip(ctx),
         "xorb_validate" => xorb::run_validate(ctx),
         _ => return false,
